@@ -126,6 +126,23 @@ func TestC29_Drop(t *testing.T) {
 		})
 }
 
+func TestC29_DropMultiTable(t *testing.T) {
+	core.Run(t, "C29", "sequential_multitable",
+		"as part 'sequential' but on trees whose levels >=1 hold several small tables (2 KiB tables, values of several hundred bytes, pool x fan-out keys): DropPrefix then rewrites groups of tables per level (adjacent and non-adjacent matches, several prefixes at once), and the level structure is validated after every step. Non-trivial = a DropPrefix removed visible keys from a level with several tables.",
+		func(rt *rapid.T) Program {
+			return GenProgram(rt, GenCfg{DB: dbx.GenCfg{AllowManaged: true, AllowEnc: true, KeepVersions: []int{1, 2, 0}}, MinOps: 8, MaxOps: 36, BigValues: true, MinKeys: 6, MaxKeys: 12,
+				Weights: map[string]int{"fill": 10, "deepen": 5, "txn": 4, "flush": 3, "compact": 5, "dropprefix": 8, "dropall": 1, "reopen": 2, "iter": 1, "begin": 1},
+				FixSpec: func(s *dbx.Spec) { s.InMemory = false; s.BaseTableSize = 1 << 11; s.MemTableSize = 1 << 15; s.BlockSize = 512 }})
+		},
+		func(p Program, rec *evid.Rec) (core.Result, error) {
+			in, err := Run(p, extSetup(map[string]func(*Interp, Op) error{"dropprefix": dropPrefixOp, "dropall": dropAllOp}))
+			res := core.Result{Classes: classesOf(in.St, p), Excluded: in.St.Excluded}
+			cntClasses(in, &res, rec)
+			res.NonTrivial = in.Cnt["dropprefix_removed_visible_keys"] > 0 && in.St.MultiTableLevel > 0
+			return res, err
+		})
+}
+
 // ---- concurrent part: writers race with a drop -------------------------------------------------------
 
 type c29Conc struct {
